@@ -50,7 +50,8 @@ def gen_cases(rng, tier):
 
 def corpus():
     p = os.path.join(os.path.dirname(__file__), "..", "corpus", "c12.json")
-    return json.load(open(p)) if os.path.exists(p) else []
+    fixed = json.load(open(p)) if os.path.exists(p) else []
+    return fixed + loop.witness_specs(DRIVER)  # the runs of Lemmas/TunerWitnessData.lean, replayed on the real Tuner
 
 
 def run_impl(spec):
